@@ -7,7 +7,7 @@ VERIF = os.path.dirname(os.path.dirname(os.path.abspath(__file__)))
 PROPS = os.path.join(VERIF, "lean", "Scc", "Props")
 # property -> list of (props file, extra modules that must build: the executable models the tie uses)
 FILES = {
-    "C02": [("C02", ["Scc.Fun2Core.Model", "Scc.Fun2Core.Hygiene", "Scc.Fun.Sem", "Scc.Core.Sem"])],
+    "C02": [("C02", ["Scc.Fun2Core.Model", "Scc.Fun2Core.Hygiene", "Scc.Fun.Sem", "Scc.Core.Sem"]), ("C02Sem", ["Scc.Fun.MainCall"])],
     "C03": [("C03", ["Scc.Core.Uniquify", "Scc.Core.Focus", "Scc.Core.Sem", "Scc.Core.Unique"])],
     "C04": [("C04", ["Scc.Core2AxCut.Model", "Scc.Core2AxCut.FsTyping", "Scc.AxCut.SemNamed", "Scc.AxCut.TypingNamed"]), ("C04Sem", [])],
     "C05": [("C05", ["Scc.AxCut.Linearize", "Scc.AxCut.SemPos", "Scc.AxCut.LinTyping"])],
@@ -25,7 +25,7 @@ FILES = {
     # C12 = the chain of preservation/no-panic theorems of the individual passes
     "C12": [("C12", ["Scc.Pipeline"]), ("C15", ["Scc.Fun.Check"]), ("C02", ["Scc.Fun2Core.Model"]), ("C03", ["Scc.Core.Focus"]), ("C04", ["Scc.Core2AxCut.Model"]), ("C05", ["Scc.AxCut.Linearize"])],
     # C01 = composition theorem over the whole pipeline model + its links
-    "C01": [("C01", ["Scc.Pipeline"]), ("C12", []), ("C20Full", [])],
+    "C01": [("C01", ["Scc.Pipeline"]), ("C12", []), ("C20Full", []), ("C02Sem", []), ("C04Sem", []), ("C06Generic", [])],
 }
 
 def theorems(path):
